@@ -376,7 +376,7 @@ Proof.
     + rewrite (proj2 (bag_empty_iff _ _ R) Er). reflexivity.
     + assert (Hne : hbag h <> []) by (intros E; apply (bag_empty_iff _ _ R) in E; congruence).
       destruct (min_time (hbag h)) as [m|] eqn:Em; [|apply min_time_none in Em; contradiction].
-      try rewrite Er in Eb. cbn [map] in Eb. f_equal. eapply min_of_perm; [exact Em|exact Eb|eapply rest_head_min; eassumption].
+      try rewrite Er in Eb. cbn [map] in Eb. repeat f_equal. eapply min_of_perm; [exact Em|exact Eb|eapply rest_head_min; eassumption].
 Qed.
 
 Lemma heap_trace_sim orc ops : forall i h a,
